@@ -36,6 +36,13 @@ class Ctx:
         self.pc: list[tuple[Term, str]] = []  # path condition (term that was true on this run)
         self.assumptions: list[Term] = []
         self._E: dict[int, Term] = {}
+        self._E_list: list = []
+        self._sqrt_list: list = []
+        self._lemma_q = None
+        self._lemma_n = 0
+        self._lemma_ns = 0
+        self.merged_atoms = 0
+        self.lemma_queries = 0
         self._sqrt: dict[int, Term] = {}
         self._max: dict[tuple, Term] = {}
         self._opq: dict[tuple, Term] = {}
@@ -60,14 +67,45 @@ class Ctx:
         """Atom for exp(core)."""
         a = self._E.get(core.id)
         if a is None:
+            cv = self.value(core)
+            if core.op != "var":
+                # atom merging: a syntactically different exponent that the solver proves equal to an
+                # existing one (guessed from the concrete valuation, then proved) shares its atom
+                for c2, a2, v2 in self._E_list:
+                    if c2.op != "var" and abs(cv - v2) <= 1e-9 * max(1.0, abs(cv)) and self.prove_equal(core, c2):
+                        self._E[core.id] = a2
+                        self.merged_atoms += 1
+                        return a2
             a = T.atom(f"E[{T.show(core, 3)}]" if core.op == "var" else f"E[#{core.id}]")
             self._E[core.id] = a
+            self._E_list.append((core, a, cv))
             self.atom_def[a] = ("exp", core)
             try:
-                self.env[a] = math.exp(self.value(core))
+                self.env[a] = math.exp(cv)
             except OverflowError:
                 self.env[a] = float("inf")
         return a
+
+    def prove_equal(self, t1: Term, t2: Term) -> bool:
+        """valid(assumptions => t1 == t2), decided by the solver (small lemma queries)."""
+        from .smt import Query
+
+        if self._lemma_q is None:
+            self._lemma_q = Query(timeout_ms=10000)
+            self._lemma_n = 0
+        q = self._lemma_q
+        for t in self.assumptions[self._lemma_n :]:
+            q.assume(t)
+        self._lemma_n = len(self.assumptions)
+        for t in self.side[self._lemma_ns :]:
+            q.assume(t)
+        self._lemma_ns = len(self.side)
+        if q.identity(T.eq(t1, t2), 5000):
+            self.lemma_queries += 1
+            return True
+        r, _ = q.valid(T.eq(t1, t2))
+        self.lemma_queries += 1
+        return r == "valid"
 
     def named_const_atom(self, name: str, value: float) -> Term:
         a = T.atom(name)
@@ -79,10 +117,16 @@ class Ctx:
     def sqrt_atom(self, t: Term) -> Term:
         a = self._sqrt.get(t.id)
         if a is None:
+            v = self.value(t)
+            for t2, a2, v2 in self._sqrt_list:
+                if abs(v - v2) <= 1e-9 * max(1.0, abs(v)) and self.prove_equal(t, t2):
+                    self._sqrt[t.id] = a2
+                    self.merged_atoms += 1
+                    return a2
             a = T.atom(f"SQRT[#{t.id}]")
             self._sqrt[t.id] = a
+            self._sqrt_list.append((t, a, v))
             self.atom_def[a] = ("sqrt", t)
-            v = self.value(t)
             self.env[a] = math.sqrt(v) if v >= 0 else float("nan")
             self.side.append(T.eq(T.mul(a, a), t))
         return a
@@ -248,6 +292,8 @@ class Val:
 
     # -- arithmetic
     def __add__(self, o):
+        if getattr(o, "kind", None) == "cyc":
+            return NotImplemented
         o = Val.const(o)
         a, b = self, o
         if a.kind == "lin" and b.kind == "lin":
@@ -277,6 +323,8 @@ class Val:
         return Val.const(o) - self
 
     def __mul__(self, o):
+        if getattr(o, "kind", None) == "cyc":
+            return NotImplemented
         o = Val.const(o)
         a, b = self, o
         if a.kind == "lin" and b.kind == "lin":
@@ -323,7 +371,8 @@ class Val:
                 for _ in range(n):
                     r = r * self
                 return r
-            return Val("lin", T.powi(self.re, n), None, mu_pow(self.mu, n))
+            fac, mu = _sqrt_norm(mu_pow(self.mu, n))
+            return Val("lin", T.mul(T.powi(self.re, n), fac), None, mu)
         if n.denominator == 2 and self.im is None:
             return self.sqrt() ** n.numerator
         raise Unsupported(f"pow {n}")
@@ -339,13 +388,22 @@ class Val:
         self._need("lin")
         if self.im is not None:
             raise Unsupported("complex sqrt")
-        mu = self.mu
         t = self.re
-        if any(e % 2 for _, e in mu):
-            t = self.full_re()
-            mu = EMPTY
-        else:
-            mu = tuple((k, e // 2) for k, e in mu)
+        half: dict = {}
+        odd = []
+        for k, e in self.mu:
+            d = CTX.atom_def.get(k)
+            if e % 2 == 0:
+                half[k] = half.get(k, 0) + e // 2
+            elif d is not None and d[0] == "exp":
+                # sqrt(E[c]^e) = E[c/2]^e
+                h = CTX.E(T.mul(d[1], T.const(Fraction(1, 2))))
+                half[h] = half.get(h, 0) + e
+            else:
+                odd.append((k, e))
+        if odd:
+            t = T.mul(t, mu_term(tuple(odd)))
+        mu = tuple(sorted(((k, e) for k, e in half.items() if e), key=lambda kv: kv[0].id))
         if t.op == "const":
             q = t.data
             if q < 0:
@@ -591,14 +649,36 @@ def _lin_add(a: Val, b: Val) -> Val:
     return Val("lin", re, im, mu)
 
 
+def _sqrt_norm(mu: tuple):
+    """SQRT[t]^(2k) -> t^k : returns (factor Term, reduced monomial)."""
+    if not mu:
+        return T.ONE, mu
+    fac = T.ONE
+    out = []
+    changed = False
+    for k, e in mu:
+        d = CTX.atom_def.get(k)
+        if d is not None and d[0] == "sqrt" and abs(e) >= 2:
+            h, r = divmod(abs(e), 2)
+            f = T.powi(d[1], h)
+            fac = T.mul(fac, f) if e > 0 else T.div(fac, f)
+            if r:
+                out.append((k, r if e > 0 else -r))
+            changed = True
+        else:
+            out.append((k, e))
+    return (fac, tuple(out)) if changed else (T.ONE, mu)
+
+
 def _P_mul(a: Val, b: Val, kind: str) -> Val:
     mu = mu_mul(a.mu, b.mu)
+    fac, mu = _sqrt_norm(mu)
     if a.im is None and b.im is None:
-        return Val(kind, T.mul(a.re, b.re), None, mu)
+        return Val(kind, T.mul(a.re, b.re, fac), None, mu)
     ai = a.im if a.im is not None else T.ZERO
     bi = b.im if b.im is not None else T.ZERO
-    re = T.sub(T.mul(a.re, b.re), T.mul(ai, bi))
-    im = T.add(T.mul(a.re, bi), T.mul(ai, b.re))
+    re = T.mul(fac, T.sub(T.mul(a.re, b.re), T.mul(ai, bi)))
+    im = T.mul(fac, T.add(T.mul(a.re, bi), T.mul(ai, b.re)))
     return Val(kind, re, im, mu)
 
 
@@ -724,7 +804,7 @@ def close(a, b, rtol=1e-7, atol=1e-9) -> bool:
         # imaginary part of logs is modulo 2pi
         return abs(a.real - b.real) <= atol + rtol * max(abs(a.real), abs(b.real)) and (
             abs(a.imag - b.imag) <= atol + rtol * max(abs(a.imag), abs(b.imag))
-            or abs(abs(a.imag - b.imag) - 2 * math.pi) <= 1e-6
+            or min((a.imag - b.imag) % (2 * math.pi), 2 * math.pi - (a.imag - b.imag) % (2 * math.pi)) <= 1e-6
         )
     a, b = float(a), float(b)
     if math.isnan(a) or math.isnan(b):
